@@ -306,6 +306,8 @@ func c05stmt(n *sx, ind string) string {
 				for _, g := range cl.list[1].list {
 					if g.head() == "c" {
 						gs = append(gs, c05cond(g.list[1]))
+					} else if g.head() == "g" {
+						gs = append(gs, "g("+g.list[1].atom+", "+c05expr(g.list[2])+")")
 					} else {
 						gs = append(gs, c05expr(g))
 					}
@@ -383,7 +385,7 @@ func c05features(prog []*sx) *c05feat {
 			}
 			h := n.head()
 			switch h {
-			case "e", "=", ":", "b", "if", "for", "br", "co", "ret", "lab", "goto", "rng", "sw", "case", "default":
+			case "e", "=", ":", "b", "if", "for", "br", "co", "ret", "lab", "goto", "rng", "sw", "case", "default", "g":
 				f.kinds[h] = true
 			}
 			switch h {
@@ -421,6 +423,8 @@ func c05features(prog []*sx) *c05feat {
 				if dfn != ":" && k != "" {
 					set["range-assign-form-final-key"] = true
 				}
+			case "g":
+				f.kinds["case-side-effect"] = true
 			case "case", "default":
 				ft := n.list[1]
 				if h == "case" {
@@ -460,6 +464,14 @@ func c05interp() *fast.Interp {
 			}
 			c05trace = append(c05trace, fmt.Sprintf("%d:%d", tag, v))
 		})
+		// g(tag, v): a case expression with an observable side effect
+		c05ir.DeclFunc("g", func(tag, v int) int {
+			if len(c05trace) >= c05budget {
+				panic("emit budget exceeded")
+			}
+			c05trace = append(c05trace, fmt.Sprintf("%d:%d", tag, v))
+			return v
+		})
 	}
 	c05uses++
 	return c05ir
@@ -480,7 +492,7 @@ func c05runRealSrc(src string) string {
 	go func() {
 		select {
 		case <-done:
-		case <-time.After(20 * time.Second):
+		case <-time.After(5 * time.Second):
 			hung = true
 			ir.Interrupt(os.Interrupt)
 		}
@@ -539,7 +551,7 @@ func c05prepare(ops []string) {
 			j = len(progs)
 		}
 		var decls, body strings.Builder
-		decls.WriteString("var emitF func(int, int)\nfunc emit(tag, v int) { emitF(tag, v) }\n")
+		decls.WriteString("var emitF func(int, int)\nfunc emit(tag, v int) { emitF(tag, v) }\nfunc g(tag, v int) int { emitF(tag, v); return v }\n")
 		body.WriteString("n := 0\nemitF = func(tag, v int) { n++; if n > 4000 { panic(\"emit budget exceeded\") }; emit(fmt.Sprintf(\"%d:%d\", tag, v)) }\n")
 		for k, op := range progs[i:j] {
 			decls.WriteString(c05opSource(op, fmt.Sprintf("f%d", k)))
